@@ -26,3 +26,36 @@ pub fn to_int_to_float_total() {
     kani::cover!(f.is_nan());
     kani::cover!(f > 1e300);
 }
+
+/// std.convert.parse_int on EVERY ASCII string of length 0..=2: an int exactly for [+-]?digit+
+/// (decimal), () otherwise
+#[kani::proof]
+#[kani::unwind(6)]
+#[kani::stub(alloc::fmt::format, crate::verif_common::stub_format)]
+pub fn parse_int_short_ascii() {
+    assert!(parse_int("").is_none());
+    let b: [u8; 2] = [kani::any(), kani::any()];
+    kani::assume(b[0] < 0x80 && b[1] < 0x80);
+    let digit = |c: u8| c >= b'0' && c <= b'9';
+    let val = |c: u8| (c - b'0') as i64;
+    // one character
+    let s1 = match std::str::from_utf8(&b[..1]) { Ok(s) => s, Err(_) => unreachable!() };
+    match parse_int(s1) {
+        Some(v) => assert!(digit(b[0]) && v == val(b[0])),
+        None => assert!(!digit(b[0])),
+    }
+    // two characters
+    let s2 = match std::str::from_utf8(&b) { Ok(s) => s, Err(_) => unreachable!() };
+    let expect = if digit(b[0]) && digit(b[1]) {
+        Some(val(b[0]) * 10 + val(b[1]))
+    } else if b[0] == b'-' && digit(b[1]) {
+        Some(-val(b[1]))
+    } else if b[0] == b'+' && digit(b[1]) {
+        Some(val(b[1]))
+    } else {
+        None
+    };
+    assert!(parse_int(s2) == expect);
+    kani::cover!(expect.is_some());
+    kani::cover!(b[0] == b'-');
+}
